@@ -296,9 +296,10 @@ Definition header_fmt_ok (c : container) : bool :=
   fits 1 (c_version c) && fits 2 (c_length c) && fits 4 (c_flags c) && fits 2 (c_sw c) && fits 1 (c_fuse c)
   && fits 1 (zlen' (c_images c)) && fits 2 (sbo c).
 (* AHABContainerBase._export: version, length, tag, flags, sw version, fuse version, #images, signature block offset, reserved *)
+Definition header_bytes_raw (version length flags sw fuse nimg sbo_ : Z) : list N :=
+  le 1 version ++ le 2 length ++ le 1 gen_tag_container ++ le 4 flags ++ le 2 sw ++ le 1 fuse ++ le 1 nimg ++ le 2 sbo_ ++ le 2 0.
 Definition header_bytes (c : container) : list N :=
-  le 1 (c_version c) ++ le 2 (c_length c) ++ le 1 gen_tag_container ++ le 4 (c_flags c) ++ le 2 (c_sw c) ++ le 1 (c_fuse c)
-  ++ le 1 (zlen' (c_images c)) ++ le 2 (sbo c) ++ le 2 0.
+  header_bytes_raw (c_version c) (c_length c) (c_flags c) (c_sw c) (c_fuse c) (zlen' (c_images c)) (sbo c).
 Definition container_fmt_ok (c : container) : bool :=
   header_fmt_ok c && forallb iae_fmt_ok (c_images c) && sigblock_fmt_ok (c_sb c).
 (* AHABContainer.export *)
@@ -429,10 +430,12 @@ Definition container_verify_ok (p : params) (cc : container_cfg) (c : container)
            end).
 
 (* BinaryImage export of the tree *)
-Definition place_all (buf : list N) (l : list (Z * Z * list N)) : list N :=
-  fold_left (fun b x => let '(off, size, d) := x in
-                        let d' := if zlen' d =? size then d else py_set (repeat 0%N (Z.to_nat size)) 0 (length d) d in
-                        place b off (zlen' d') d') l buf.
+(* BinaryImage(binary=d, size=size).export(): the binary itself, or a zero block of `size` bytes that starts with it *)
+Definition fit_image (size : Z) (d : list N) : list N :=
+  if zlen' d =? size then d else py_set (repeat 0%N (Z.to_nat size)) 0 (length d) d.
+Definition place_piece (b : list N) (x : Z * Z * list N) : list N :=
+  let d' := fit_image (snd (fst x)) (snd x) in place b (fst (fst x)) (zlen' d') d'.
+Definition place_all (buf : list N) (l : list (Z * Z * list N)) : list N := fold_left place_piece l buf.
 Definition containers_block (p : params) (cs : list container) : list N :=
   place_all (repeat 0%N (Z.to_nat (start_real p cs)))
             (map (fun c => (c_coff c, zlen' (container_bytes (p_v2 p) c), container_bytes (p_v2 p) c)) cs).
@@ -450,15 +453,17 @@ Fixpoint build_all (p : params) (ix : Z) (l : list container_cfg) : res (list co
 Definition ahab_update (p : params) (l : list container_cfg) : res (list container) :=
   bind (build_all p 0 l) (fun cs => Ok (assign_offsets p (p_start p) cs)).
 
+(* export of the updated object: struct.error on a field that does not fit its slot (raised by sign_itself in update_fields for
+   signed containers, or by container.export() reached through image_info() inside verify() -- neither is an SPSDKError),
+   SPSDKVerificationError when verify() has an ERROR record, the BinaryImage bytes otherwise *)
+Definition ahab_export_of (p : params) (l : list container_cfg) (cs : list container) : res (list N) :=
+  if negb (forallb container_fmt_ok cs) then Err E_CRASH
+  else if forallb (fun x => container_verify_ok p (fst x) (snd x)) (combine l cs) && layout_ok p cs
+  then Ok (ahab_bytes p cs) else Err E_REJECT.
 (* load_from_config; update_fields; export *)
 Definition ahab_export (p : params) (l : list container_cfg) : res (list N) :=
   if p_max_cnt p <? zlen' l then Err E_REJECT                          (* add_container refuses *)
-  else bind (ahab_update p l) (fun cs =>
-    (* struct.error on a field that does not fit its slot: from sign_itself (signed containers, in update_fields) or from
-       container.export() reached through image_info() inside verify() -- neither is an SPSDKError *)
-    if negb (forallb container_fmt_ok cs) then Err E_CRASH
-    else if forallb (fun x => container_verify_ok p (fst x) (snd x)) (combine l cs) && layout_ok p cs
-    then Ok (ahab_bytes p cs) else Err E_REJECT).
+  else bind (ahab_update p l) (ahab_export_of p l).
 
 (* ------------------------------------------------------------------ parsing one container (AHABContainer.parse, version 1) *)
 Definition rd (l : list N) (off w : nat) : Z := Z.of_N (le_dec (slice l off (off + w))).
@@ -496,6 +501,15 @@ Definition blob_parse (l : list N) (keyid : Z) : res blob :=
   else if negb (existsb (Z.eqb (rd l 6 1)) [3; 4]) then Err E_REJECT     (* KeyBlobEncryptionAlgorithm.from_tag (AES_CBC 3, SM4_CBC 4) *)
   else Ok {| b_size := rd l 5 1 * 8; b_flags := rd l 4 1; b_alg := rd l 6 1; b_mode := rd l 7 1;
              b_keyblob := slice l 8 (Z.to_nat (rd l 1 2)); b_dek := []; b_keyid := keyid; b_length := rd l 1 2 |}.
+(* AHABContainerBase._parse: check_container_head, then (length, flags, sw version, fuse version, #images, signature block offset) *)
+Definition header_parse (v2 : bool) (l : list N) : res (Z * Z * Z * Z * Z * Z) :=
+  if head_ok gen_tag_container [gen_version_container v2] l 16
+  then Ok (rd l 1 2, rd l 4 4, rd l 8 2, rd l 10 1, rd l 11 1, rd l 12 2) else Err E_REJECT.
+(* the header a parsed container re-exports: version and tag are class constants, the signature block offset is recomputed
+   from the number of images, the reserved half word is written as zero *)
+Definition header_reexport (v2 : bool) (h : Z * Z * Z * Z * Z * Z) : list N :=
+  let '(length, flags, sw, fuse, nimg, _) := h in
+  header_bytes_raw (gen_version_container v2) length flags sw fuse nimg (zalign (16 + nimg * 128) gen_container_alignment).
 Definition iae_parse (l : list N) : iae :=
   {| i_raw_off := rd l 0 4; i_size := rd l 4 4; i_load := rd l 8 8; i_entry := rd l 16 8; i_flags := rd l 24 4; i_meta := rd l 28 4;
      i_hash := slice l 32 96; i_iv := slice l 96 128; i_image := []; i_plain := []; i_gap := 0; i_size_align := 0; i_ele := false |}.
@@ -550,13 +564,19 @@ Definition v_container (v2 : bool) (c : container) : value :=
 
 Definition run_case (fn : Z) (args : list value) : value :=
   match fn, args with
-  | 1, [fam; tm; v2; VList cs] =>       (* export *)
-      vres rle (ahab_export (dec_params fam tm v2) (map dec_container cs))
+  | 1, [fam; tm; v2; VList cs] =>
+      (* [export bytes or error; failing range checks per container (AHABContainer.verify)] from one update_fields *)
+      let p := dec_params fam tm v2 in
+      let l := map dec_container cs in
+      if p_max_cnt p <? zlen' l then VList [VErr E_REJECT; VList []]
+      else match ahab_update p l with
+           | Err k => VList [VErr k; VList []]
+           | Ok cs' => VList [vres rle (ahab_export_of p l cs'); VList (map (fun c => VList (map VInt (container_range_errors c))) cs')]
+           end
   | 2, [fam; tm; v2; VList cs] =>       (* object state after update_fields: offsets, hashes, signed data *)
       let p := dec_params fam tm v2 in
       vres (fun l => VList (map (v_container (p_v2 p)) l)) (ahab_update p (map dec_container cs))
-  | 3, [fam; tm; v2; VList cs] =>       (* failing range checks per container *)
-      let p := dec_params fam tm v2 in
-      vres (fun l => VList (map (fun c => VList (map VInt (container_range_errors c))) l)) (ahab_update p (map dec_container cs))
+  | 4, [v2; VBytes l] =>                (* header parse + re-export *)
+      vres (fun h => VBytes (header_reexport (vbool' v2) h)) (header_parse (vbool' v2) l)
   | _, _ => VErr E_BADCASE
   end.
